@@ -15,7 +15,7 @@ import z3
 from engine.common.core import Obligation, Cover, mval
 from engine.pyvc.values import *
 from engine.pyvc import models
-from engine.pyvc.harness import toolkit, raw, where, new_engine, run_paths, path_obligations, register_fn, note_engine, qualname
+from engine.pyvc.harness import toolkit, raw, where, new_engine, run_paths, path_obligations, register_fn, note_engine, qualname, exc_note, sect
 from contracts.py import msgs, trx as T
 from contracts.py.common import view_of, snapshot, frame_obligations, attr
 from contracts.py.tokens import IntTok, BadTok, install_token_model
@@ -48,10 +48,10 @@ def build(run, prop=ID):
     FakeTRX = ft.FakeTRX
     E = new_engine()
     install_token_model(E)
-    build_sim_drop(run, prop, E, FakeTRX)
-    build_handle_nope(run, prop, E, FakeTRX)
-    build_cmds(run, prop, E, FakeTRX)
-    build_counter_lemma(run, prop)
+    sect(run, build_sim_drop, run, prop, E, FakeTRX)
+    sect(run, build_handle_nope, run, prop, E, FakeTRX)
+    sect(run, build_cmds, run, prop, E, FakeTRX)
+    sect(run, build_counter_lemma, run, prop)
     note_engine(run, E)
     run.assume("class invariant of FakeTRX: burst_drop_amount >= 0, burst_drop_period >= 1, _hdr_ver in {0,1} "
                "(established by __init__, preserved by every command: obligations invariant_preserved here and in C05)")
@@ -71,7 +71,7 @@ def build_sim_drop(run, prop, E, FakeTRX):
     for p, ctx, out in run_paths(E, setup, lambda E, ctx: E.call(f, [ctx["self"], ctx["msg"]])):
         tag = {"what": "sim_burst_drop"}
         if out[0] == "raise":
-            run.add(Obligation(prop, qualname(f), "never_raises", p.pc, z3.BoolVal(False), kind="noexc", case=out[1].cls.__name__, where=where(f), tag=tag))
+            run.add(Obligation(prop, qualname(f), "never_raises", p.pc, z3.BoolVal(False), kind="noexc", note=exc_note(out[1]), case=out[1].cls.__name__, where=where(f), tag=tag))
             continue
         t = ctx["self"]
         res = out[1]
@@ -143,7 +143,7 @@ def build_handle_nope(run, prop, E, FakeTRX):
         run.add(*path_obligations(run, prop, h, p, ""))
         tag = {"what": "handle_nope"}
         if out[0] == "raise":
-            run.add(Obligation(prop, qualname(h), "never_raises", p.pc, z3.BoolVal(False), kind="noexc", case=out[1].cls.__name__, where=where(h), tag=tag))
+            run.add(Obligation(prop, qualname(h), "never_raises", p.pc, z3.BoolVal(False), kind="noexc", note=exc_note(out[1]), case=out[1].cls.__name__, where=where(h), tag=tag))
             continue
         sent, refused = out[1]
         t = ctx["self"]
@@ -219,7 +219,7 @@ def build_cmds(run, prop, E, FakeTRX):
             tag = {"what": "fake_drop", "argc": argc}
             t = ctx["self"]
             if out[0] == "raise":
-                run.add(Obligation(prop, qualname(c), "never_raises_on_numeric_args", p.pc, z3.BoolVal(False), kind="noexc", case=cs + "," + out[1].cls.__name__, where=where(c), tag=tag))
+                run.add(Obligation(prop, qualname(c), "never_raises_on_numeric_args", p.pc, z3.BoolVal(False), kind="noexc", note=exc_note(out[1]), case=cs + "," + out[1].cls.__name__, where=where(c), tag=tag))
                 continue
             res = out[1]
             if not isinstance(res, (int, SInt)) or isinstance(res, bool):
@@ -246,7 +246,7 @@ def build_cmds(run, prop, E, FakeTRX):
         tag = {"what": "rfmute"}
         t = ctx["self"]
         if out[0] == "raise":
-            run.add(Obligation(prop, qualname(pc), "never_raises_on_numeric_args", p.pc, z3.BoolVal(False), kind="noexc", case=cs + "," + out[1].cls.__name__, where=where(pc), tag=tag))
+            run.add(Obligation(prop, qualname(pc), "never_raises_on_numeric_args", p.pc, z3.BoolVal(False), kind="noexc", note=exc_note(out[1]), case=cs + "," + out[1].cls.__name__, where=where(pc), tag=tag))
             continue
         res = out[1]
         run.add(Obligation(prop, qualname(pc), "status", p.pc, Z(res) == 0 if isinstance(res, (int, SInt)) else z3.BoolVal(False), kind="post", case=cs, where=where(pc), tag=tag))
